@@ -13,6 +13,9 @@ import (
 	"github.com/pkg/errors"
 )
 
+// maxExpansionRatio is the upper bound of deflate's expansion (258 bytes per 2 bits)
+const maxExpansionRatio = 1032
+
 var defaultCompressor *compressor
 
 func init() {
@@ -135,12 +138,18 @@ func Decompress(in []byte) (out []byte, n int, err error) {
 		return
 	}
 
+	// The ISIZE trailer is untrusted: it is only a capacity hint, bounded by what
+	// the input can expand to. Read until the gzip reader itself reports EOF, which
+	// it does only after the checksum and size of the stream have been verified.
 	dsize := defaultCompressor.DecompressedSize(in)
+	if max := len(in) * maxExpansionRatio; dsize < 0 || dsize > max {
+		dsize = max
+	}
 
 	buf := bytes.NewBuffer(make([]byte, 0, dsize+bytes.MinRead))
 
 	var rn int64
-	rn, err = buf.ReadFrom(io.LimitReader(or, int64(dsize+1)))
+	rn, err = buf.ReadFrom(or)
 
 	n = int(rn)
 
